@@ -6,6 +6,7 @@ mod codec_engine;
 mod import_engine;
 mod lazy_engine;
 mod read_paths;
+mod crash_engine;
 
 fn main() {
     let args = common::Args(std::env::args().skip(1).collect());
@@ -16,6 +17,7 @@ fn main() {
         Some("codec") => codec_engine::main(&args),
         Some("import") => import_engine::main(&args),
         Some("lazy") => lazy_engine::main(&args),
+        Some("crash") => crash_engine::main(&args),
         _ => {
             eprintln!("usage: harness <engine> …");
             2
